@@ -2,6 +2,7 @@
 
 from . import editsim
 from . import props_edit  # noqa: F401  (registers plugins)
+from . import props_c03  # noqa: F401
 
 
 def _engine_for(prop):
